@@ -860,6 +860,20 @@ pub fn gen_draw(rng: &mut Rng, w: i32, h: i32, cfg: &DrawCfg) -> Op {
         1 => {
             let rect = if rng.chance(1, 2) {
                 gen_int_rect_f(rng, w, h)
+            } else if rng.chance(1, 3) {
+                // almost an integer rectangle: one or two of the four numbers are off the grid
+                // (by a quarter, a half, a thousandth or one ulp) - the decision between the
+                // integer fast path and the general route looks at each of them
+                let mut r = gen_int_rect_f(rng, w, h);
+                for _ in 0..(1 + rng.usize(2)) {
+                    let i = rng.usize(4);
+                    let d = rng.pick(&[0.25f32, -0.25, 0.5, -0.5, 0.001, -0.001, 0.75]);
+                    r[i] = if rng.chance(1, 6) { F(f32::from_bits((r[i].0.to_bits() as i32 + if rng.chance(1, 2) { 1 } else { -1 }) as u32)) } else { F(r[i].0 + d) };
+                    if !r[i].0.is_finite() {
+                        r[i] = F(0.5);
+                    }
+                }
+                r
             } else {
                 let q = rng.chance(1, 2);
                 let x = coord(rng, w, q);
